@@ -380,7 +380,7 @@ func c13SeedPackage(id string) *c13SeedPkg {
 				panic(fmt.Sprintf("harness: own seed: %v %v", e1, e2))
 			}
 		}
-		tmp := &c13Inst{doc: d, uses: map[string]int{"X": 1}, api: map[string]bool{"X": true}}
+		tmp := &c13Inst{doc: d, uses: map[string]int{"X": 1}, api: map[string]bool{"X": true}, apiFP: map[string]c13StyleFP{}}
 		b, v, errS := tmp.save()
 		if errS != "" {
 			panic("harness: own seed does not save: " + errS)
@@ -435,6 +435,9 @@ var c13Ops = []c13Op{
 	{name: "GetStyle(X) edited in place (bold toggled, basedOn Normal<->Heading1, renamed)", kind: "editstyle", id: "X"},
 	{name: "GetStyle(Heading1) edited in place (bold toggled, renamed)", kind: "editstyle", id: "Heading1"},
 	{name: "CreateQuickStyle(T,table)", kind: "quick", id: "T"},
+	{name: "CreateQuickStyle(Quote,paragraph) [id of a predefined style: must be refused]", kind: "quick", id: "Quote"},
+	{name: "AddStyle(Y,paragraph,basedOn X)", kind: "addbased", id: "Y"},
+	{name: "AddStyle(Z,paragraph,basedOn NoSuchBase)", kind: "adddangling", id: "Z"},
 	{name: "AddTable.ApplyTableStyle(StyleID=T)", kind: "tblstyleid", id: "T"},
 	{name: "AddTable.ApplyTableStyle(StyleID=ab)", kind: "tblstyleid", id: "ab"},
 	{name: "AddTable.ApplyTableStyle(Template=TableGrid)", kind: "tbltemplate", id: string(document.TableStyleTemplateGrid)},
@@ -459,7 +462,7 @@ func c13TOCConfig() *document.TOCConfig {
 	return c
 }
 
-var c13StyleType = map[string]style.StyleType{"X": style.StyleTypeParagraph, "T": style.StyleTypeTable}
+var c13StyleType = map[string]style.StyleType{"X": style.StyleTypeParagraph, "T": style.StyleTypeTable, "Y": style.StyleTypeParagraph, "Z": style.StyleTypeParagraph, "Quote": style.StyleTypeParagraph}
 
 func init() {
 	names := make([]string, len(c13Ops))
@@ -481,6 +484,7 @@ type c13Inst struct {
 	saved     bool            // the current object was saved before
 	uses      map[string]int  // custom style id -> number of elements the harness made that use it
 	api       map[string]bool // custom ids currently in the registry through style API calls on the current object
+	apiFP     map[string]c13StyleFP // their definition as last read from the registry: a style that silently leaves the registry is still expected
 	lastSaved string          // summary of the id-defining parts of the last save (key)
 	lastNT    bool
 }
@@ -520,7 +524,8 @@ func (i *c13Inst) Enabled(op int) bool {
 		// only styles no element uses are removed
 		return i.doc.GetStyleManager().StyleExists(o.id) && i.uses[o.id] == 0
 	case "quick":
-		return !i.doc.GetStyleManager().StyleExists(o.id)
+		// also when the id is taken: the call must then be refused and leave the registry as it was
+		return true
 	case "editstyle":
 		// a style the registry has: the custom one once the style API put it there, the predefined one always
 		if _, custom := c13StyleType[o.id]; custom {
@@ -552,6 +557,10 @@ func (i *c13Inst) ctx() c13Ctx {
 		// the expected definition is read from the registry itself (public accessor)
 		if s := sm.GetStyle(id); s != nil {
 			cx.apiStyles[id] = c13FPOf(s)
+			i.apiFP[id] = cx.apiStyles[id]
+		} else if fp, ok := i.apiFP[id]; ok {
+			// the caller never removed it, yet the registry no longer has it
+			cx.apiStyles[id] = fp
 		}
 	}
 	return cx
@@ -583,6 +592,7 @@ func (i *c13Inst) Apply(op int) (string, []rep.Violation) {
 			i.origin = o.id
 			i.uses = map[string]int{}
 			i.api = map[string]bool{}
+			i.apiFP = map[string]c13StyleFP{}
 			switch o.id {
 			case "fresh":
 				i.doc = document.New()
@@ -624,11 +634,31 @@ func (i *c13Inst) Apply(op int) (string, []rep.Violation) {
 			i.api[o.id] = true
 			i.lastNT = true
 		case "quick":
+			existed := i.doc.GetStyleManager().StyleExists(o.id)
+			if existed {
+				// whatever is registered under the id is now expected to stay (also a predefined style)
+				if st := i.doc.GetStyleManager().GetStyle(o.id); st != nil {
+					i.api[o.id] = true
+					i.apiFP[o.id] = c13FPOf(st)
+				}
+			}
 			_, err := style.NewQuickStyleAPI(i.doc.GetStyleManager()).CreateQuickStyle(style.QuickStyleConfig{ID: o.id, Name: "Quick " + o.id, Type: c13StyleType[o.id]})
 			if err != nil {
 				outcome = "error"
+				if existed {
+					i.lastNT = true
+				}
 				return
 			}
+			i.api[o.id] = true
+			i.lastNT = true
+		case "addbased", "adddangling":
+			base := "X"
+			if o.kind == "adddangling" {
+				base = "NoSuchBase"
+			}
+			i.doc.GetStyleManager().AddStyle(&style.Style{Type: string(c13StyleType[o.id]), StyleID: o.id, CustomStyle: true,
+				Name: &style.StyleName{Val: "Derived " + o.id}, BasedOn: &style.BasedOn{Val: base}})
 			i.api[o.id] = true
 			i.lastNT = true
 		case "editstyle":
@@ -664,6 +694,7 @@ func (i *c13Inst) Apply(op int) (string, []rep.Violation) {
 		case "remove":
 			i.doc.GetStyleManager().RemoveStyle(o.id)
 			delete(i.api, o.id)
+			delete(i.apiFP, o.id)
 			i.lastNT = true
 		case "tblstyleid", "tbltemplate":
 			t, err := i.doc.AddTable(&document.TableConfig{Rows: 1, Cols: 1, Width: 3000})
@@ -739,6 +770,7 @@ func (i *c13Inst) Apply(op int) (string, []rep.Violation) {
 			// a new Document object: style API calls on it start anew (clause 4 is about the
 			// object the calls were made on); what the body uses must of course still resolve
 			i.api = map[string]bool{}
+			i.apiFP = map[string]c13StyleFP{}
 			i.lastNT = true
 		}
 	})
@@ -818,7 +850,7 @@ func runC13(r *rep.Run) {
 	if r.Tier == "thorough" {
 		depth = 4
 	}
-	r.Rule = "BFS over histories (one seed, then up to <depth_after_seed> operations) of styled-content, style-API, table-style, list, note, TOC, ToBytes and reopen operations on a real Document; seeds: New(), a Markdown-converted document, an opened package written by this library (custom style in use, two lists, two footnotes, two endnotes), two opened foreign packages with their own styles (one also with numbering, a footnote reference and a header). Every ToBytes/reopen inside a history and one more save at every distinct state is read with the independent reader and judged: each w:pStyle/w:rStyle/w:tblStyle value in the main, header, footer and notes parts is a w:styleId of the matching w:type in the styles part; each non-zero w:numId has a w:num whose w:abstractNumId has a w:abstractNum; each w:footnoteReference/w:endnoteReference id and each note marker the library writes ('[n]' / '[尾注n]') is a note id of the notes part; each style put into or changed in the current Document's registry through CreateCustomStyle/AddStyle/CreateQuickStyle or by editing the object GetStyle returns (custom X, predefined Heading1) (and not removed) is in the saved styles part with the registry's type, name, basedOn and bold. Caller-invented ids are excluded: SetStyle/ApplyTableStyle(StyleID) only get ids of the right type that are in the registry at call time, RemoveStyle only removes a style no element made by the harness uses. non-trivial = an operation that added a reference or a definition, saved or reopened (errors are not)"
+	r.Rule = "BFS over histories (one seed, then up to <depth_after_seed> operations) of styled-content, style-API, table-style, list, note, TOC, ToBytes and reopen operations on a real Document; seeds: New(), a Markdown-converted document, an opened package written by this library (custom style in use, two lists, two footnotes, two endnotes), two opened foreign packages with their own styles (one also with numbering, a footnote reference and a header). Every ToBytes/reopen inside a history and one more save at every distinct state is read with the independent reader and judged: each w:pStyle/w:rStyle/w:tblStyle value in the main, header, footer and notes parts is a w:styleId of the matching w:type in the styles part; each non-zero w:numId has a w:num whose w:abstractNumId has a w:abstractNum; each w:footnoteReference/w:endnoteReference id and each note marker the library writes ('[n]' / '[尾注n]') is a note id of the notes part; each style put into or changed in the current Document's registry through CreateCustomStyle/AddStyle/CreateQuickStyle (incl. a style based on another custom style that is removed later, a style whose base was never registered, and a refused CreateQuickStyle on an id that is taken) or by editing the object GetStyle returns (custom X, predefined Heading1) (and not removed by the caller) is in the saved styles part with the registry's type, name, basedOn and bold. Caller-invented ids are excluded: SetStyle/ApplyTableStyle(StyleID) only get ids of the right type that are in the registry at call time, RemoveStyle only removes a style no element made by the harness uses. non-trivial = an operation that added a reference or a definition, saved or reopened (errors are not)"
 	r.Bounds["depth_after_seed"] = depth
 	r.Bounds["seeds"] = c13NSeeds
 	r.Bounds["alphabet_without_seeds"] = len(c13Ops) - c13NSeeds
